@@ -468,7 +468,7 @@ def run(ctx):
     cases = corpus()
     g = golden_case()
     cases.append(dict(g, golden=False, sci=False))
-    n_random = ctx.budget(170, 12000)
+    n_random = ctx.budget(170, 3000)
     for i in range(n_random):
         sc = Schema(rng, rng.choice([0, 15, 30, 60]))
         p_any = rng.choice([30, 60, 90])
